@@ -26,9 +26,14 @@ PROPS = {
         "assumed": ["residual seen by reading: get_child_node maps NotFound to 'no child', so a reader overtaken during a request can still assemble a non-verifying proof (outside this contract)"],
     },
     "C18": {
-        "verus": ["encoding_lemmas", ("verify_base", ["verify_label", "NodeLabel.new"])],
+        "verus": ["encoding_lemmas", ("verify_base", BASE_VERIFY_FNS + ["verify_label", "NodeLabel.new"]),
+                  ("verify_history", ["verify_single_update_proof"]), ("verify_lookup", ["lookup_verify"])],
         "kani": ["c18"],
-        "scope": "partial (everything except the curve arithmetic): verify_label accepts iff key and proof parse, the VRF accepts the proof for the hash input of (label, freshness, version) "
+        "search": True,
+        "search_pid": "C07",
+        "scope": "partial (everything except the curve arithmetic): every acceptance path of the client verifiers binds the claimed node label through verify_label to the (label, freshness, version) "
+                 "it is accepted for - verify_existence / _with_val / _with_commitment / verify_nonexistence accept only with label_ok for exactly their arguments, and lookup_verify / "
+                 "verify_single_update_proof (tombstoned entries under AllowMissingValues included) accept only through them; verify_label accepts iff key and proof parse, the VRF accepts the proof for the hash input of (label, freshness, version) "
                  "and the claimed node label equals the truncated VRF output with length 256 (Verus, unbounded); the hash input is be64(|label|) || label || [freshness] || be64(version) "
                  "(Kani on the real functions with a recording hash stub, both configurations; BOUNDED in the label length, full-domain otherwise) and that encoding is injective "
                  "(Verus lemma, unbounded); leaf-hash and commitment-nonce pre-images (nonce contains the key-derived commitment key); output truncation = first 32 bytes; the key and proof parsers refuse every byte string of the wrong length (Kani, curve operations stubbed). "
